@@ -46,6 +46,17 @@ func (l lockedImporter) Import(path string) (*types.Package, error) {
 	return l.imp.Import(path)
 }
 
+// ImportFrom resolves module dependencies relative to the importing directory (go/build asks the go
+// command, which finds them in the module cache).
+func (l lockedImporter) ImportFrom(path, dir string, mode types.ImportMode) (*types.Package, error) {
+	srcImpMu.Lock()
+	defer srcImpMu.Unlock()
+	if from, ok := l.imp.(types.ImporterFrom); ok {
+		return from.ImportFrom(path, dir, mode)
+	}
+	return l.imp.Import(path)
+}
+
 // stdImporter type-checks imported standard-library packages from source (no export data is
 // installed for go1.23); shared and serialised.
 func stdImporter() types.Importer {
